@@ -96,6 +96,13 @@ CLAIMED["C05"] = (
     "DESIGN.md section 3, C05",
 )
 
+CLAIMED["C13"] = (
+    "context-sensitive taint analysis on go/ssa (field-based with root-aware keys, sanitiser labels intersected over paths) + lexing of every generator format string as Rego to obtain the lexical context of each verb",
+    "For every formatting site of the generator that a text named by the property can reach (profile name, validation name, message, list values, pattern), the sanitisers applied on every path must neutralise what is special in the lexical context of the verb (code / double-quoted / raw string / comment); placeholders are handled by a structural rule on the message parser and the sprintf template; embedded-Rego placeholders are substituted only in user Rego. This is a statement about the absence of an escaping step, so it covers every Unicode string without sampling any.",
+    "What a given string looks like in the report is runtime behaviour (declined). IRIs and path text are outside this property's list; their sinks are listed in the evidence. " + TRUST,
+    "DESIGN.md section 3, C13",
+)
+
 # properties without a check yet (or declined), with the reason
 NOT_APPLICABLE = {
 }
